@@ -18,8 +18,10 @@ def run(ctx):
     with vcheck.Lock("translator"):
         vcheck.sh([vcheck.TRANSLATOR_BIN, "-repo", vcheck.REPO, "-out", vcheck.GENERATED])
         ctx.obligations("NGF.Props.C09")
+        ctx.obligations("NGF.Props.C09Wiring")
         if ctx.tier == "thorough":
             ctx.leanchecker("NGF.Props.C09")
+            ctx.leanchecker("NGF.Props.C09Wiring")
 
     # corpus first: (a) the judge still separates the recorded good and bad histories (guards the judge),
     # (b) the recorded operation lists are replayed on the real code
@@ -102,6 +104,8 @@ def run(ctx):
     if inconclusive:
         ctx.broken(f"inconclusive cases (timeout = deadlock?): {dict(inconclusive)}")
 
+    wiring_cov = _wiring(ctx)
+
     # ---- coverage, measured on the generated cases -------------------------------------------------
     def ops_of(j):
         return j.split("ops=")[1].split(" ")[0].split(";")
@@ -158,6 +162,7 @@ def run(ctx):
         "ops_histogram": dict(kinds),
         "sequential_length_histogram": dict(sorted(seq_len.items(), key=lambda kv: int(kv[0]))),
         "flush_group_count_histogram": dict(flush_sizes),
+        "wiring": wiring_cov,
     }, assumptions=[
         "Go: sync.Mutex gives atomic sections, so with both methods holding the lock for their whole body "
         "(pinned by LeaderFacts) interleavings are linearisations",
@@ -167,5 +172,88 @@ def run(ctx):
         "the context passed to Enable/UpdateGroup is not cancelled (Updater.Update returns early on a cancelled context)",
         "whether a single Updater.Update call succeeds at the API server is C08's subject; here a write = a request "
         "reaching client.Status().Update",
-        "StartManager itself is not executed: its wiring is pinned by regenerated facts only",
+        "StartManager itself is not executed (manager, caches, leader election of controller-runtime): the handler is "
+        "constructed by the overlay accessor with the same eventHandlerConfig fields, and the manager.go side of the wiring "
+        "(raw updater only feeds the wrapper, Enable only registered with the leader-election runnable) is pinned by "
+        "regenerated facts",
+        "wiring stream: NGINX always accepts the configuration (stub generator/file manager/runtime); the recording "
+        "client's Get returns the object without status, so a request whose setter reports no change against an empty "
+        "status never reaches Status().Update (counted as silent_requests); whether the statuses are the right ones for "
+        "the cluster state is C07/C08's subject - here they are compared with those of a fresh handler",
     ])
+
+
+def _wiring(ctx):
+    """The REAL eventHandlerImpl in front of the REAL LeaderAwareGroupUpdater: model correspondence (HEv/runR) and the
+    fresh-handler judge."""
+    wexpect = [l.rstrip("\n").split("\t") for l in open(os.path.join(CORPUS, "wjudge_expect.tsv"))
+               if "\t" in l and not l.startswith("#")]
+    wgot = ctx.driver("wjudge", [e[1] for e in wexpect])
+    for (want, hist), g in zip(wexpect, wgot):
+        if want != g:
+            ctx.broken(f"wiring judge regression: corpus history expected '{want}', judge says '{g}'",
+                       kind="obligation", replay={"judge_input": hist})
+    n = 400 if ctx.tier == "quick" else 20000
+    maxsteps = 6 if ctx.tier == "quick" else 8
+    lines = ctx.harness(["-wiring", "-seed", ctx.seed + 31, "-n", n, "-maxsteps", maxsteps])
+    rc, err = getattr(ctx, "harness_rc", 0), getattr(ctx, "harness_err", "")
+    if lines is None:
+        return {"cases": 0}
+    if rc != 0:
+        ctx.broken(f"wiring harness run crashed (exit {rc}): {err.strip().splitlines()[0] if err.strip() else ''}", detail=err)
+    cases, incon = [], collections.Counter()
+    for l in lines:
+        if l.startswith("X "):
+            incon[l[2:][:80]] += 1
+            continue
+        p = _parts(l)
+        if all(k in p for k in "MOJDS"):
+            cases.append(p)
+    for why, c in incon.items():
+        ctx.broken(f"wiring stream: inconclusive case ({c}x): {why}")
+    import json
+    verdicts = ctx.driver("wjudge", [c["J"] for c in cases])
+    hist = collections.Counter()
+    nfind = 0
+    for c, v in zip(cases, verdicts):
+        hist[v] += 1
+        if v == "bad-op":
+            ctx.broken("wiring judge cannot decode a history", replay={"judge_input": c["J"]})
+        elif v != "ok":
+            clause = v.replace("fail ", "")
+            nfind += 1
+            if nfind <= 40:
+                ctx.finding(f"C09:wiring:{clause}",
+                            f"real event handler + leader-aware updater violate clause {clause}: the statuses written "
+                            f"are not those a fresh handler computes for the cluster state of the submitting batch",
+                            {"mode": "wiring", "judge_input": json.loads(c["J"]), "model_events": c["M"],
+                             "observed": c["O"], "dictionary": json.loads(c["D"])})
+    outs = ctx.driver("wmodel", [c["M"] for c in cases])
+    diffs = 0
+    for c, out in zip(cases, outs):
+        if out != c["O"]:
+            diffs += 1
+            if diffs <= 3:
+                ctx.broken(f"wiring model and implementation disagree on [{c['M']}]: impl {c['O']} / model {out}",
+                           replay={"mode": "wiring", "events": c["M"], "impl": c["O"], "model": out,
+                                   "dictionary": json.loads(c["D"])})
+    stats = collections.Counter()
+    for c in cases:
+        for k, v in json.loads(c["S"]).items():
+            stats[k] += v
+    nontrivial = len({c["M"] for c in cases if json.loads(c["S"]).get("flush_writes", 0) > 0})
+    return {
+        "cases": len(cases),
+        "corpus_judge_expectations": len(wexpect),
+        "distinct_with_nonempty_flush": nontrivial,
+        "model_agrees": len(cases) - diffs,
+        "correspondence_diffs": diffs,
+        "judge_verdicts": dict(hist),
+        "generator": dict(stats),
+        "sample": cases[0]["M"] if cases else "",
+        "rule": "one case = one controller process: start-up batch + up to maxsteps generated batches through the real "
+                "HandleEventBatch, election at a generated point; model = HEv events with the request values snapshotted "
+                "at call time (runR allFresh: groups per step and writes per call must be equal); judge = writes at the "
+                "election / after it compared per group with a fresh handler on the cluster state of the submitting batch",
+    }
+
